@@ -39,6 +39,7 @@ type Env struct {
 	touched   map[string]Sort
 	// probing which heap components a spec function reads
 	reads map[string]Sort
+	unfoldNext bool
 }
 
 func (x *Exec) entryEnv(st *State) *Env {
@@ -591,6 +592,15 @@ func (x *Exec) evalCall(env *Env, e *ECall) SV {
 		return x.eval(env, e.Args[i])
 	}
 	switch e.Fn {
+	case "unfold":
+		// unfold(f(args)): the application of an opaque spec function together with its defining equation for these arguments
+		if len(e.Args) != 1 {
+			specFail("unfold needs one argument")
+		}
+		env.unfoldNext = true
+		r := x.eval(env, e.Args[0])
+		env.unfoldNext = false
+		return r
 	case "len":
 		v := arg(0)
 		if v.Typ != nil {
@@ -733,10 +743,13 @@ func (x *Exec) evalCall(env *Env, e *ECall) SV {
 	if len(e.Args) != len(sf.Params) {
 		specFail("%s: expected %d arguments, got %d", e.Fn, len(sf.Params), len(e.Args))
 	}
+	force := env.unfoldNext
+	env.unfoldNext = false
 	var args []SV
 	for i := range e.Args {
 		args = append(args, arg(i))
 	}
+	env.unfoldNext = force
 	return x.applySpec(env, sf, args)
 }
 
@@ -955,7 +968,9 @@ func (x *Exec) applySpec(env *Env, sf *SpecFunc, args []SV) SV {
 	}
 	x.U.Declare(si.sym, si.retS, asorts...)
 	app := App(si.sym, si.retS, ats...)
-	if sf.Body != nil && env.getFuel() > 0 && !sf.Opaque {
+	force := env.unfoldNext
+	env.unfoldNext = false
+	if sf.Body != nil && ((env.getFuel() > 0 && !sf.Opaque) || force) {
 		f := env.getFuel()
 		env.fuel, env.fuelSet = f-1, true
 		body := evalBody(env)
